@@ -220,7 +220,9 @@ def handleWalk : Handler := fun op args =>
     let cb ← decWalkCb cb
     let v ← Value.ofSexp v
     let r := Walk.walk X cb v
-    pure (listStr ("log" :: r.1.map visitStr) ++ " " ++ resTag (fun _ => "-") r.2)
+    match r.2 with
+    | .unmodelled => pure "unmodelled"
+    | _ => pure (listStr ("log" :: r.1.map visitStr) ++ " " ++ resTag (fun _ => "-") r.2)
   | "walk.trans", [orc, sched, .atom mode, t, v] => do
     let X ← decOracle orc
     let σ ← decSched sched
@@ -228,10 +230,14 @@ def handleWalk : Handler := fun op args =>
     let v ← Value.ofSexp v
     if mode == "post" then
       let r := Walk.transform X σ t.exit v
-      pure (listStr ("log" :: (Walk.exits r.1).map visitStr) ++ " " ++ resTag valKey r.2)
+      match r.2 with
+      | .unmodelled => pure "unmodelled"
+      | _ => pure (listStr ("log" :: (Walk.exits r.1).map visitStr) ++ " " ++ resTag valKey r.2)
     else
       let r := Walk.transformWith X σ t 100 v
-      pure (listStr ("log" :: r.1.map evStr) ++ " " ++ resTag valKey r.2)
+      match r.2 with
+      | .unmodelled => pure "unmodelled"
+      | _ => pure (listStr ("log" :: r.1.map evStr) ++ " " ++ resTag valKey r.2)
   | "walk.unmarkpaths", [orc, sched, v] => do
     let X ← decOracle orc
     let σ ← decSched sched
